@@ -88,6 +88,7 @@ func runC15(c *ctx, r *Report) error {
 		nSort, nRel = 60000, 80000
 	}
 	r.Rule = fmt.Sprintf("(1) %d random diagnostic lists (0–12 entries, few distinct positions so ties are frequent, random ignore masks): real filter + sort.Stable(ByErrorPosition) vs model; (2) %d random (cwd, root, spelling) triples over a small directory alphabet with ., .. and // components: display path, path handed to PathConfigs (verif hook) and Project.Knows vs model; (3) Command.Main run in a scratch repository from 4 working directories × 3 spellings × ignore-pattern sets on the CLI, in `paths` config (globs relative to the root) and both; stdout (JSON format) and exit status compared with the filter applied by the harness to the unfiltered run; plus flag errors (exit 2) and fatal errors (exit 3); non-trivial = distinct inputs with ≥ 2 diagnostics or a path outside cwd", nSort, nRel)
+	r.Rule += "; (5) two repositories with different paths configurations in one invocation (2–3 files, 5 argument orders, 3 working directories): each file as when linted alone, exit status accordingly"
 
 	// (1) filter + stable sort
 	for i := 0; i < nSort; i++ {
@@ -400,6 +401,75 @@ func runC15(c *ctx, r *Report) error {
 				}
 			}
 		}
+	}
+	writeProject(root, "", nil)
+	// two repositories in one invocation: a `paths` entry belongs to the repository that contains the file. Each file's
+	// diagnostics in the joint run equal those of the file linted alone (same cwd), in both argument orders.
+	{
+		rootB := filepath.Join(tmp, "repoB")
+		writeProject(root, "paths:\n  '.github/workflows/a.yml':\n    ignore:\n      - 'undefined variable'\n", nil)
+		if err := writeProject(rootB, "paths:\n  '.github/workflows/b.yml':\n    ignore:\n      - 'is not defined'\n      - 'label'\n", map[string]string{"b.yml": c15Workflow, "nested/n.yml": c15Workflow}); err != nil {
+			return err
+		}
+		fa, fb, fn := filepath.Join(root, ".github", "workflows", "a.yml"), filepath.Join(rootB, ".github", "workflows", "b.yml"), filepath.Join(rootB, ".github", "workflows", "nested", "n.yml")
+		per := func(cwd string, files ...string) (map[string]string, int, error) {
+			st, out, _, err := runMain(cwd, append(append([]string{}, base...), files...)...)
+			if err != nil {
+				return nil, 0, err
+			}
+			es, perr := parse(out)
+			if perr != nil {
+				return nil, st, perr
+			}
+			m := map[string]string{}
+			for _, e := range es {
+				abs := e.Filepath
+				if !filepath.IsAbs(abs) {
+					abs = filepath.Join(cwd, abs)
+				}
+				m[abs] += fmt.Sprintf("%d:%d:%s[%s]\n", e.Line, e.Column, e.Message, e.Kind)
+			}
+			return m, st, nil
+		}
+		for _, cwd := range []string{root, rootB, tmp} {
+			alone := map[string]string{}
+			for _, f := range []string{fa, fb, fn} {
+				m, _, err := per(cwd, f)
+				if err != nil {
+					return err
+				}
+				alone[f] = m[f]
+				r.Evaluations++
+			}
+			for _, order := range [][]string{{fa, fb}, {fb, fa}, {fa, fb, fn}, {fn, fa, fb}, {fb, fn, fa}} {
+				m, st, err := per(cwd, order...)
+				if err != nil {
+					return err
+				}
+				r.Evaluations++
+				var names []string
+				for _, f := range order {
+					names = append(names, strings.TrimPrefix(f, tmp+"/"))
+				}
+				desc := map[string]string{"cwd": strings.TrimPrefix(cwd, tmp), "files_in_order": strings.Join(names, " ")}
+				r.nontrivial("two-repos:" + fmt.Sprint(desc))
+				remaining := 0
+				for _, f := range order {
+					if m[f] != alone[f] {
+						r.finding("paths-config-of-other-repository", fmt.Sprintf("diagnostics of %s in a run over two repositories differ from linting it alone (the `paths` configuration of the wrong repository was applied)", strings.TrimPrefix(f, tmp+"/")), Case{Op: "main", Input: desc, Impl: m[f], Model: alone[f]})
+					}
+					remaining += strings.Count(alone[f], "\n")
+				}
+				want := 0
+				if remaining > 0 {
+					want = 1
+				}
+				if st != want {
+					r.finding("exit-status", fmt.Sprintf("exit status %d with %d remaining diagnostics expected (want %d)", st, remaining, want), Case{Op: "main", Input: desc})
+				}
+			}
+		}
+		os.RemoveAll(rootB)
 	}
 	writeProject(root, "", nil)
 	// flag errors and fatal errors
